@@ -4,7 +4,8 @@
    by the specification's encoder, read by the real code). *)
 EXTENDS Codec
 CONSTANTS MaxTok,     \* probe cells have at most this many tokens
-          F           \* the format to enumerate ("all" for every format)
+          F,          \* the format to enumerate ("all" for every format)
+          LongN       \* the lengths of the long cells (family XL)
 
 \* the option variants of each format (spelled out as mlr flags by the harness)
 Variants(f) == CASE f = "csv" -> {"default", "quoteall", "crlf", "semi", "tabfs", "headerless", "ragged"}
@@ -102,16 +103,30 @@ StyledText(f, v, st, s) ==
     [] st = "j4" -> JSONText([lay |-> "concat", esc |-> "U", sp |-> TRUE], s)
     [] st = "j5" -> JSONText([lay |-> "lines", esc |-> "u", sp |-> FALSE], s)
     [] st = "j6" -> JSONText([lay |-> "array", esc |-> "min", sp |-> FALSE], s)
+\* long cells: a run of n plain characters, written as the ONE token "L<n>" (the harness renders it as n letters and reads such
+\* a run back as the token), as a value in the first / last field of the first / last record, and inside a key.  Lines whose
+\* lengths straddle the sizes of an implementation's buffers must come back like any other line, whatever ends them.
+LTok(n) == "L" \o ToString(n)
+LongStreams(f, v) ==
+  IF f \in {"pprint", "markdown"} THEN {}          \* (aligned formats pad every other cell to the long one's width: left out)
+  ELSE
+  UNION {{ << <<P(K(f, v, 1), <<LTok(n)>>), P(K(f, v, 2), Y)>>, <<P(K(f, v, 1), Z), P(K(f, v, 2), <<LTok(n)>>)>> >> }
+         \cup (IF PositionalOnly(f, v) \/ f = "xtab" THEN {}
+               ELSE { << <<P(<<"k", LTok(n)>>, Y), P(K(f, v, 2), Z)>>, <<P(<<"k", LTok(n)>>, Z), P(K(f, v, 2), Y)>> >>,
+                      << <<P(K(f, v, 1), Y), P(<<"k", LTok(n)>>, Z)>> >> }) : n \in LongN}
 FVs == {<<f, v>> : f \in (IF F = "all" THEN Formats ELSE {F}), v \in {"default", "quoteall", "crlf", "semi", "tabfs", "headerless", "ragged",
                                                                       "jsonl", "nowrap", "oneline", "comma", "barred", "right"}}
 Case(k, f, v, fam, st, s) == [k |-> k, f |-> f, v |-> v, fam |-> fam, st |-> st, s |-> s]
 RawRT == UNION {
            {Case("rt", fv[1], fv[2], fam, "-", StreamOf(fam, fv[1], fv[2], c)) : fam \in Families, c \in ProbeCells(fv[1], fv[2])}
            \cup {Case("rt", fv[1], fv[2], "X", "-", s) : s \in Specials(fv[1], fv[2])}
+           \cup {Case("rt", fv[1], fv[2], "XL", "-", s) : s \in LongStreams(fv[1], fv[2])}
          : fv \in {x \in FVs : x[2] \in Variants(x[1])}}
 RawTX == UNION {
            {Case("tx", fv[1], fv[2], fam, st, StreamOf(fam, fv[1], fv[2], c)) :
               fam \in {"KB1", "KB2", "VB"}, st \in StyleNames(fv[1], fv[2]), c \in ProbeCells(fv[1], fv[2])}
+           \* (the \\u-escaping JSON styles spell every character by its code point, which a run token does not have)
+           \cup {Case("tx", fv[1], fv[2], "XL", st, s) : st \in StyleNames(fv[1], fv[2]) \ {"j2", "j4", "j5"}, s \in LongStreams(fv[1], fv[2])}
          : fv \in {x \in FVs : x[2] \in Variants(x[1])}}
 \* only streams inside the documented representable domain are cases
 Cases == {x \in RawRT \cup RawTX : Representable(x.f, x.v, x.s)}
